@@ -458,15 +458,16 @@ Definition can_use_structural_union (types : list ty) : bool := can_use_structur
 (** the one-at-a-time union: [result = Never; for t in ts: result = union_type(result, t)] *)
 Definition union_fold (G : world) (ts : list ty) : ty := fold_left (union_type G) ts TNever.
 
-(** [union_type_all] = [TypeOps::union_all] *)
+(** [union_type_all] = [TypeOps::union_all]: the scan returns [Any] at the first [Any] and drops the
+    [Never]s for the structural fast path; the slow path folds over the batch as given *)
 Definition union_type_all (G : world) (types : list ty) : ty :=
-  if existsb (is_b BAny) (* the scan returns [Any] at the first [Any]; [Never]s are dropped *) types then TAny
+  if existsb (is_b BAny) types then TAny
   else
     let result_types := filter (fun t => negb (is_b BNever t)) types in
     match result_types with
     | [] => TNever
     | _ => if can_use_structural_union result_types then from_vec result_types
-           else union_fold G result_types
+           else union_fold G types
     end.
 
 (** * Sub-typing: the super-type graph *)
@@ -868,7 +869,7 @@ Section Check.
 
     (** [check_array_type_compact(source_base, compact)] *)
     Definition array_check (sbase c : ty) : res :=
-      let sb := if strict_array_index cf then union_type G sbase TNil else sbase in
+      let sb := if strict_array_index cf then from_vec [sbase; TNil] else sbase in
       match c with
       | TArray cb => k 1 (CGen sb cb)
       | TTuple ts => all_ok (fun t => k 1 (CGen sb t)) ts
